@@ -16,6 +16,71 @@ impl Prop for C17 {
             Tier::Thorough => 20000,
         }
     }
+    fn fixed_cases(&self, _tier: Tier) -> Vec<Case> {
+        let mut v = Vec::new();
+        let mut add = |name: &str, ref_time: u64, recs: Vec<Rec>| {
+            let h = History { ref_time, recs, ..Default::default() };
+            v.push(Case { name: name.to_string(), ops: h.to_ops() });
+        };
+        let comm = |pid: u32, tid: u32, name: &str, t: u64| Rec::Comm { pid, tid, name: name.to_string(), exec: false, t };
+        let exec = |pid: u32, name: &str, t: u64| Rec::Comm { pid, tid: pid, name: name.to_string(), exec: true, t };
+        let fork = |pid: u32, tid: u32, ppid: u32, ptid: u32, t: u64| Rec::Fork { pid, tid, ppid, ptid, t };
+        let exit = |pid: u32, tid: u32, t: u64| Rec::Exit { pid, tid, t };
+        let sample = |pid: u32, tid: u32, t: u64| Rec::Sample { pid, tid, t, kernel: false, period: 1_000_000, ip: 0x1010, chain: vec![] };
+        // the kernel's order for exit_group with a zombie leader: the main thread's EXIT precedes the siblings'.
+        // Judged as long as no sibling EXIT is delivered afterwards …
+        add(
+            "main-exit-before-sibling-no-late-exit",
+            1000,
+            vec![comm(100, 100, "app", 1000), fork(100, 101, 100, 100, 1100), fork(100, 102, 100, 101, 1150), sample(100, 101, 1200), sample(100, 102, 1300), exit(100, 100, 2000), sample(200, 200, 2100)],
+        );
+        // … and (candidate finding C17-phantom-process-on-thread-exit) with the sibling EXITs after it
+        if finding_enabled(FINDING_PHANTOM) {
+            add(
+                "orphan-exit-minimal",
+                1000,
+                vec![comm(100, 100, "app", 1000), fork(100, 101, 100, 100, 1100), sample(100, 101, 1200), exit(100, 100, 2000), exit(100, 101, 2000)],
+            );
+            add(
+                "orphan-exit-two-siblings",
+                1000,
+                vec![comm(100, 100, "app", 1000), fork(100, 101, 100, 100, 1100), fork(100, 102, 100, 100, 1150), sample(100, 101, 1200), sample(100, 102, 1300), exit(100, 100, 2000), exit(100, 102, 2001), exit(100, 101, 2002), sample(200, 200, 2100)],
+            );
+            add("orphan-exit-never-seen-pid", 0, vec![comm(100, 100, "app", 1000), sample(100, 100, 1200), exit(300, 301, 1500), sample(100, 100, 1600)]);
+        }
+        // ids reused after their EXIT without a FORK: the next record of the id opens a fresh on-demand entry
+        add(
+            "id-reuse-without-fork",
+            1000,
+            vec![
+                comm(100, 100, "first", 1000),
+                fork(100, 101, 100, 100, 1100),
+                comm(100, 101, "worker", 1150),
+                sample(100, 101, 1200),
+                exit(100, 101, 1300),
+                sample(100, 101, 1400),
+                comm(100, 101, "again", 1500),
+                exit(100, 101, 1600),
+                comm(100, 101, "third", 1700),
+                exit(100, 100, 2000),
+                sample(100, 100, 2100),
+                comm(100, 100, "reborn", 2200),
+                sample(100, 101, 2300),
+                exit(100, 100, 2400),
+                comm(100, 100, "late", 2500),
+                exec(100, "execd", 2600),
+                sample(100, 100, 2700),
+            ],
+        );
+        // a process re-created on demand by a sample after a main-thread EXIT while a sibling was alive: the
+        // sibling's later records belong to the new incarnation
+        add(
+            "main-exit-then-sibling-records",
+            1000,
+            vec![comm(100, 100, "app", 1000), fork(100, 101, 100, 100, 1100), comm(100, 101, "w", 1150), exit(100, 100, 2000), sample(100, 101, 2100), comm(100, 101, "w2", 2200), exit(100, 101, 2300), exit(100, 100, 2400)],
+        );
+        v
+    }
     fn generate(&self, rng: &mut Rng, tier: Tier, _index: u64) -> Vec<String> {
         let shape = Shape {
             max_len: if tier == Tier::Thorough { 300 } else { 120 },
@@ -35,6 +100,25 @@ impl Prop for C17 {
             return vec!["bad-op".to_string()];
         };
         count_history(&h, stats);
+        // judged share per history length (the Lean judge decides; this mirrors `Life.grammarOk`)
+        let n = h.recs.len();
+        let bucket = match n {
+            0..=19 => "000_019",
+            20..=39 => "020_039",
+            40..=59 => "040_059",
+            60..=79 => "060_079",
+            80..=99 => "080_099",
+            _ => "100_up",
+        };
+        stats.bump(&format!("len_{bucket}_cases"));
+        if c17_judged(&h) {
+            stats.bump(&format!("len_{bucket}_judged"));
+            stats.bump("judged_by_grammar");
+        } else if h.reuse {
+            stats.bump("not_judged_reuse");
+        } else {
+            stats.bump("not_judged_grammar");
+        }
         let dir = work_tmp("C17");
         let tag = format!("c{:016x}", fnv1a(ops));
         import_and_render(&h, Proj::C17, &dir, &tag, stats)
